@@ -923,7 +923,7 @@ def more(it, rnd):
     it["help_more"] = "second paragraph of " + it["help"].lower().replace("help-", "zq") + " with words"
     full = it["help"] + "\n\n" + it["help_more"]
     starts = [i for i in range(1, len(full)) if full[i - 1] in " \n" and full[i] not in " \n"]
-    it["help_cuts"] = sorted({rnd.choice(starts) for _ in range(rnd.randint(1, 3))})
+    it["help_cuts"] = sorted({rnd.choice(starts) for _ in range(rnd.randint(1, 5))})
 
 
 def decorate_for_help(d, rnd, hostile=None):
